@@ -606,3 +606,127 @@ def exh_scenarios(layout, maxlen, small=None):
             if ok:
                 out.append({'name': '%s/%s' % (layout, '.'.join(map(str, seq))), 'nodes': nodes, 'ops': ops})
     return out
+
+
+# ---------------------------------------------------------------- the check proper (C06 and C07 share everything but the clause set)
+
+ASSUMPTIONS = [
+    "model scope: one Request object per API call; capacities/sizes sum below 2^63 (arithmetic on Z); node ids < 63; priorities within 0..32767; "
+    "built-in overcommit handler (custom ExpandZone is covered by the theorems as an arbitrary function ex, custom HandleOvercommit is not modelled)",
+    "modelled not verified: Go map iteration order (every consumer sorts or is order-insensitive; where ZonesByUsersSubzonesFirst does not force an order the model flags the history and the comparison stops there -- count reported), slices.SortFunc returns the sorted permutation for strict total orders, time.Now() strictly increasing per created request (enforced by the harness)",
+    "correspondence: Go harness harness/libmem (public API only, go test -overlay), trace->Coq printer lib/libmem_common.py, translators tools/consts2coq + tools/libmem2coq (priorities, type masks, allowedPrios/expandTypes ladders, shrink sort chain, F1/F2 switches by call-graph reachability)",
+]
+
+
+def explicit(sc, res):
+    """replayable form of a scenario: node set + the operations as executed"""
+    return {'name': res['name'], 'nodes': sc['nodes'], 'ops': res['ops'], 'twin': sc.get('twin', 'coin'),
+            'twin_seed': (sc.get('gen') or {}).get('seed', 0) + sc.get('twin_seed', 0)}
+
+
+def build_scenarios(tier, rng):
+    scs = fixed_scenarios()
+    nrand = 260 if tier == 'quick' else 2600
+    for i in range(nrand):
+        scs.append({'name': 'rnd%d' % i, 'nodes': random_nodes(rng),
+                    'gen': {'seed': rng.randrange(1 << 31), 'n': rng.choice([12, 20, 30]), 'profile': ''}})
+    for name, nodes in REPO_LAYOUTS.items():
+        for j in range(6 if tier == 'quick' else 60):
+            scs.append({'name': '%s-%d' % (name, j), 'nodes': nodes,
+                        'gen': {'seed': rng.randrange(1 << 31), 'n': 25, 'profile': ''}})
+    return scs
+
+
+def run_check(prop, tier, seed, replay=None):
+    register_translators()
+    chk = Check(prop, tier, seed)
+    chk.assumptions += ASSUMPTIONS
+    chk.prove(prop + '_Props')
+    consts = gen_consts()
+    rng = chk.rng
+
+    if replay:
+        obj = json.load(open(replay))
+        sc = obj.get('replay') or obj
+        scs = [sc] if 'nodes' in sc else fixed_scenarios()
+    else:
+        scs = build_scenarios(tier, rng)
+    res, extra = run_harness(chk, scs, 'main', timeout=300 if tier == 'quick' else 1200)
+    if res is None:
+        chk.corr_broken('harness', 'go test failed:\n' + extra[-3000:])
+        return chk.finish(rule='harness failed')
+    for line in extra[:3]:
+        chk.violation('internal-state-inconsistent', 'validateState reported: ' + line.strip(), {'log': line})
+
+    pairs = list(zip(scs, res))
+    exh_pairs = []
+    if tier == 'thorough' and not replay:
+        # bounded-exhaustive: every op sequence up to length 3 over the full alphabets of the two
+        # 3-node layouts, and up to length 4 over a 12-letter sub-alphabet
+        small = [0, 1, 3, 4, 7, 9, 11, 12, 14, 15, 18, 19]
+        for layout in EXH_LAYOUTS:
+            e = exh_scenarios(layout, 3) + [s for s in exh_scenarios(layout, 4, small) if s['name'].count('.') == 3]
+            for k, s in enumerate(e):
+                s['twin'] = 'coin'
+                s['twin_seed'] = k
+            r2, ex2 = run_harness(chk, e, 'exh_' + layout, timeout=1500)
+            if r2 is None:
+                chk.corr_broken('harness', 'go test (exhaustive %s) failed:\n%s' % (layout, ex2[-2000:]))
+                continue
+            exh_pairs += list(zip(e, r2))
+
+    # ---------------- oracle
+    tot, distinct, nontrivial = {}, set(), 0
+    for sc, r in pairs + exh_pairs:
+        if r.get('error'):
+            chk.violation('harness-error:' + r['error'].split(':')[0], '%s: %s' % (r['name'], r['error']), explicit(sc, r))
+            continue
+        o = Oracle(sc, r, consts)
+        for p, sig, text, i in o.run():
+            if p == prop:
+                rp = explicit(sc, r)
+                rp['ops'] = rp['ops'][:i + 1]
+                chk.violation(sig, text, rp)
+        for k, v in o.stats.items():
+            tot[k] = tot.get(k, 0) + v
+        key = json.dumps([sc['nodes'], r['ops']], sort_keys=True)
+        if key not in distinct:
+            distinct.add(key)
+            if o.stats['moves'] > 0 or o.stats['alloc_moves'] > 0:
+                nontrivial += 1
+
+    # ---------------- correspondence
+    files = write_case_files(chk, pairs, 'main', per=10)
+    nh, unforced, noc = eval_case_files(chk, files)
+    tfiles = write_case_files(chk, pairs, 'twin', per=14, twins=True)
+    nh2, unf2, _ = eval_case_files(chk, tfiles)
+    nh3 = 0
+    if exh_pairs:
+        efiles = write_case_files(chk, exh_pairs, 'exh', per=400)
+        nh3, unf3, _ = eval_case_files(chk, efiles)
+        unforced += unf3
+    alloc_like = tot.get('allocs', 0) + tot.get('reallocs_ok', 0)
+    n_exh_ops = sum(len(r['ops']) for _, r in exh_pairs if not r.get('error'))
+    n_main_allocs = sum(1 for _, r in pairs if not r.get('error') for op in r['ops'] if op['op'] in ('alloc', 'offer'))
+    for sc, r in pairs[:40]:
+        if not r.get('error') and any(st['upd'] for st in r['steps']):
+            chk.samples.append({'name': r['name'], 'nodes': sc['nodes'], 'ops': r['ops'][:12],
+                                'results': [[st['ok'], st['zone'], st['upd']] for st in r['steps'][:12]]})
+            if len(chk.samples) >= 3:
+                break
+    return chk.finish(
+        rule='random node sets (3-6 nodes; DRAM/PMEM/HBM mixes, memory-less, CPU-less and movable-only nodes, symmetric and asymmetric distance '
+             'matrices) plus the repository\'s sample layouts (2, 8 and 12 nodes); seeded adaptive histories of GetOffer/Commit/Allocate/Realloc/Release '
+             '(12-30 ops, offers committed arbitrarily late, sizes relative to the current free capacity) and the hand-written F1/F2/K1 histories; '
+             'every history also run as an erased twin; thorough adds all op sequences up to length 3 (full alphabets) / 4 (12 letters) on two 3-node layouts. '
+             'distinct_nontrivial = distinct (node set, history) pairs in which at least one other allocation was moved by overcommit resolution',
+        evaluations=tot.get('ops', 0) + tot.get('twin_steps', 0), distinct=nontrivial, traces=nh + nh2 + nh3,
+        extra_cov={'exhaustive': bool(exh_pairs), 'histories': len(pairs), 'histories_exhaustive': len(exh_pairs), 'ops_exhaustive': n_exh_ops,
+                   'distinct_histories': len(distinct), 'oracle_stats': tot,
+                   'alloc_like_ops_random': n_main_allocs, 'ops_entering_overcommit_resolution_random': noc,
+                   'fraction_overcommit': round(noc / max(1, n_main_allocs), 3),
+                   'histories_cut_order_not_forced': unforced + unf2,
+                   'coq_case_files': len(files) + len(tfiles), 'source_switches': {k: v for k, v in consts.items() if k.startswith('LM_fix')}})
+
+
+WARM = [(PKG, HARNESS)]
